@@ -48,7 +48,7 @@ func TestVerif_C08_FullRT(t *testing.T) {
 	verifsim.RunCheck(t, verifsim.Check[frtProvSc]{
 		Property: "C08", Part: "fullrt",
 		Rule: "rapid: an accelerated client over a crawl of 1-40 peers installed through a fake crawler, K 1-8; every crawled peer is a scripted responder (latency 1-3000 ms, failing, naming 0-5 of 12 providers, some of them " +
-			"without addresses, the same provider named by several responders with and without addresses), 0-3 local provider records, count in {0,1,2,3,5,50}, optional cancellation; oracle over the channel and the simulation log: " +
+			"without addresses, the same provider named by several responders with and without addresses), 0-3 local provider records, count in {0,1,2,3,5,50}, optional cancellation (also before the call); oracle over the channel and the simulation log: " +
 			"yielded ids are local or named in an answer delivered before the channel closed, at most count distinct, a peer is repeated at most once and only when it was first yielded without addresses and now has some, " +
 			"count 0 yields every named provider, channel closed; non-trivial = a provider named by >= 2 responders, or more distinct providers available than count",
 		Gen: func(t *rapid.T) frtProvSc {
@@ -69,7 +69,9 @@ func TestVerif_C08_FullRT(t *testing.T) {
 			sc.Count = rapid.SampledFrom([]int{0, 1, 2, 3, 5, 50}).Draw(t, "count")
 			sc.Local = rapid.SliceOfNDistinct(rapid.IntRange(0, 11), 0, 3, func(i int) int { return i }).Draw(t, "local")
 			sc.LocalAdr = rapid.Bool().Draw(t, "localAddr")
-			if verifsim.Chance(t, "cancel", 15) {
+			if verifsim.Chance(t, "preCancel", 6) {
+				sc.CancelMs = -1 // the context is already cancelled when the search is called
+			} else if verifsim.Chance(t, "cancel", 15) {
 				sc.CancelMs = rapid.IntRange(1, 4000).Draw(t, "cancelMs")
 			}
 			sc.SelfProv = verifsim.Chance(t, "selfProv", 25)
@@ -157,9 +159,25 @@ func TestVerif_C08_FullRT(t *testing.T) {
 				if sc.CancelMs > 0 {
 					go func() { time.Sleep(time.Duration(sc.CancelMs) * time.Millisecond); cancel() }()
 				}
-				for p := range d.FindProvidersAsync(ctx, cid.NewCidV1(cid.Raw, mh.Multihash(key)), sc.Count) {
-					emits = append(emits, emit{sim.Now(), p.ID, len(p.Addrs)})
-					time.Sleep(time.Duration(sc.SlowReadMs) * time.Millisecond)
+				if sc.CancelMs < 0 {
+					cancel()
+				}
+				// (a channel that is never closed does not deadlock the bubble - the client's tickers keep virtual time going: bounded here)
+				provCh := d.FindProvidersAsync(ctx, cid.NewCidV1(cid.Raw, mh.Multihash(key)), sc.Count)
+				giveUp := time.After(3 * time.Hour)
+			read:
+				for {
+					select {
+					case p, ok := <-provCh:
+						if !ok {
+							break read
+						}
+						emits = append(emits, emit{sim.Now(), p.ID, len(p.Addrs)})
+						time.Sleep(time.Duration(sc.SlowReadMs) * time.Millisecond)
+					case <-giveUp:
+						res.Fail("channel-closed", "C08/fullrt/channel-not-closed", "the result channel was not closed within 3 h of virtual time (cancel_ms %d)", sc.CancelMs)
+						return
+					}
 				}
 				closedAt = sim.Now()
 				if sc.SlowReadMs > 0 {
@@ -261,6 +279,9 @@ func TestVerif_C08_FullRT(t *testing.T) {
 				res.Class("count-0")
 			} else if len(first) == sc.Count {
 				res.Class("count-reached")
+			}
+			if sc.CancelMs < 0 {
+				res.Class("context-cancelled-beforehand")
 			}
 			if sc.CancelMs > 0 {
 				res.Class("cancelled")
